@@ -203,6 +203,8 @@ func genKeys(out string) {
 	emit("conds_server_Write", server.funcConds("grpcServer", "Write"))
 	emit("stmts_server_Write_channels", server.funcMentions("grpcServer", "Write", "recvResult", "putResult"))
 	emit("stmts_server_Write_committed", server.funcMentions("grpcServer", "Write", "CommittedSize"))
+	emit("stmts_server_Write_contains", server.funcMentions("grpcServer", "Write", "Contains"))
+	emit("stmts_server_QueryWriteStatus_contains", server.funcMentions("grpcServer", "QueryWriteStatus", "Contains"))
 	emit("conds_server_QueryWriteStatus", server.funcConds("grpcServer", "QueryWriteStatus"))
 	emit("stmts_server_QueryWriteStatus", server.funcMentions("grpcServer", "QueryWriteStatus", "exists", "parseWriteResource"))
 	writeIfChanged(filepath.Join(out, "Keys.v"), w.Bytes())
